@@ -175,6 +175,8 @@ def match_known(v, known):
         m = k.get("match", {})
         if "label" in m and m["label"] != v["label"]:
             continue
+        if "label_prefix" in m and not v["label"].startswith(m["label_prefix"]):
+            continue
         feats = v.get("features", {})
         ok = True
         for fk, fv in m.get("features", {}).items():
